@@ -76,7 +76,38 @@ check(abs(c20.pa_diff(0.001, math.pi - 0.001) - 0.002) < 1e-12, 'pa_diff mod pi'
 check(c20.same_angle(1e-13, 2 * math.pi - 1e-13, 1e-12) and not c20.same_angle(0.5, 0.5 + 1e-9, 1e-12), 'same_angle')
 
 # 6. lattice sizes are what the module documents
-check(len(c20.enumerate_cases('quick')) == 252 and len(c20.enumerate_cases('thorough')) == 2752, 'lattice sizes')
+check(len(c20.enumerate_cases('quick')) == 316 and len(c20.enumerate_cases('thorough')) == 3392, 'lattice sizes')
+
+# 7. start of the sequence: sma0 keyword overrides geometry.sma; growth clause accepts exactly the documented sequence
+for growth in c20.GROWTH_START:
+    for rg in c20.RANGE_PRODUCT:
+        for s0 in c20.SMA0:
+            for gs in c20.GEOMSMA:
+                case = dict(c20.DEFAULT, growth=growth, range=rg, sma0=s0, geomsma=gs)
+                start = s0 if s0 is not None else gs
+                check(c20.start_sma(case) == start and c20.geometry_sma(case) == gs, 'start_sma / geometry_sma')
+                mn, mx = c20.parse_range(case) or (0.0, None)
+                if not (mn < start and (mx is None or start < mx)):
+                    check(c20.admissible(case, c20.truth_geometry(case, 0)) is not None, 'inadmissible start rejected')
+                    continue
+                s = c20.expected_smas(case)
+                check(start in s, 'start in sequence')
+                check(all(v > max(mn, 0.5) and (mx is None or v < mx) for v in s), 'sequence strictly inside the range')
+                check(c20.growth_breaks(s, case) == [], 'documented sequence has no growth break')
+                check(len(c20.growth_breaks(s[:3] + s[4:], case)) == 1, 'a gap is a growth break')
+                check(len(c20.growth_breaks(s[:3] + [s[2]] + s[3:], case)) >= 1, 'a duplicate is a growth break')
+                other = dict(case, sma0=start * 1.37)
+                mix = sorted(s + c20.expected_smas(other))
+                check(len(c20.growth_breaks(mix, case)) >= 1, 'two interleaved sequences are a growth break')
+                kw = c20.fit_kwargs(case)
+                check(kw.get('sma0') == s0 if s0 is not None else 'sma0' not in kw, 'sma0 keyword passed only when given')
+                check((kw.get('minsma', 0.0), kw.get('maxsma')) == (mn, mx), 'range parsed')
+check(c20.start_site(dict(c20.DEFAULT)) == 'sma0=None'
+      and c20.start_site(dict(c20.DEFAULT, sma0=10.0, geomsma=18.0)) == 'sma0-kwarg:geometry.sma>sma0'
+      and c20.start_site(dict(c20.DEFAULT, sma0=14.0)) == 'sma0-kwarg:geometry.sma<sma0'
+      and c20.start_site(dict(c20.DEFAULT, sma0=10.0)) == 'sma0-kwarg:geometry.sma==sma0', 'start_site')
+old = {k: v for k, v in c20.DEFAULT.items() if k not in ('sma0', 'geomsma', 'growvia')}      # replay files of older runs
+check(c20.start_sma(old) == 10.0 and c20.expected_smas(old) == c20.expected_smas(dict(c20.DEFAULT)), 'old replay cases')
 
 # 7. share of the sectors that hold enough pixels for the area integrators (sector_fraction), against counts measured
 #    with counters inside the integrators on the pinned tree (mean mode, step 0.1; threshold 7 = "more than 6 pixels"):
